@@ -9,7 +9,7 @@ import json, os, re, shutil, subprocess, sys, time, hashlib, tempfile
 
 VERIF = os.path.abspath(os.path.join(os.path.dirname(__file__), "..", ".."))
 REPO = os.environ.get("REPO", "/repo")
-SPEC = os.path.join(VERIF, "spec")
+SPEC = os.environ.get("VERIF_SPEC") or os.path.join(VERIF, "spec")   # VERIF_SPEC: a frozen copy (seed trials while the spec is edited)
 OUT = os.environ.get("VERIF_OUT", os.path.join(VERIF, "out"))      # overridden when a mutant is tried (try_seed.sh)
 EVID = os.environ.get("VERIF_EVID", os.path.join(VERIF, "evidence"))
 BUILD = os.environ.get("VERIF_BUILD", os.path.join(VERIF, "build"))
